@@ -66,6 +66,8 @@ def make(case, rng):
     opts["hfield"] = rng.random() < 0.3 and not opts["plane"]
     n -= int(opts["plane"]) + int(opts["hfield"])
     bt = [types[int(rng.integers(6))] for _ in range(n)]
+    if kind == "pairs":  # tight bounding spheres make the sphere filter decide inside the margin band
+      bt = [("sphere" if rng.random() < 0.35 else t) for t in bt]
     prs, exs = [], []
     for _ in range(3):
       i, j = sorted(rng.choice(n, size=2, replace=False))
@@ -153,6 +155,8 @@ def physical_diff(mjm, a, b, xpos):
       # roles exchanged in the pair function: manifolds of flat-faced shapes are not unique, compare the deepest contact
       ai, bj = ia[int(np.argmin(np.asarray(a["dist"])[ia]))], ib[int(np.argmin(np.asarray(b["dist"])[ib]))]
       coincident = np.linalg.norm(xpos[key[0]] - xpos[key[1]]) < 1e-6  # normal undefined
+      if float(a["dist"][ai]) < -0.5 * min(_col.minsize(mjm, key[0]), _col.minsize(mjm, key[1])):
+        continue  # deep penetration: the convex solver's answer depends on which geom plays which role
       if abs(float(a["dist"][ai]) - float(b["dist"][bj])) > 1e-4 + 0.03 * abs(float(a["dist"][ai])) or (np.abs(a["_n"][ai] - b["_n"][bj]).max() > 2e-2 and abs(float(a["dist"][ai])) > 1e-5 and not coincident):
         return "contact-geometry", f"swapped pair {key}: deepest contact differs (dist {a['dist'][ai]} vs {b['dist'][bj]}, normal {a['_n'][ai]} vs {b['_n'][bj]})"
       continue
